@@ -295,11 +295,13 @@ def serializer_raw_text(ctx: Ctx) -> None:
             if not (isinstance(w.func.value, ast.Name) and w.func.value.id == fparam):
                 continue
             n += 1
-            parts = string_parts(w.args[0]) if len(w.args) == 1 else None
+            parts = string_parts(inline(w.args[0], fi, stop=pnames)) if len(w.args) == 1 else None
             if parts is None:
                 raise AnalysisError(f"{fq}: write argument has an unrecognised shape: {src(w)}")
+            pcall_norms = {norm(inline(c, fi)) for c in pcalls}
+            parts = [(k, x) if not (k == "expr" and isinstance(x, ast.Call) and norm(x) in pcall_norms) else ("param", x) for k, x in parts]
             lit = "".join(x for k, x in parts if k == "lit")
-            others = [x for k, x in parts if k != "lit"]
+            others = [x for k, x in parts if k not in ("lit", "param")]
             good = lit.strip() == "" and all(
                 (isinstance(x, ast.Name) and x.id in pnames) or (isinstance(x, ast.Call) and x in pcalls) for x in others)
             ctx.expect("R-WS", fi, f"write({src(w.args[0], 40)}) is parameters + whitespace", good, repr(lit),
@@ -336,8 +338,9 @@ def layout(ctx: Ctx) -> None:
     fc = p.func(CHARTS_SERIALIZE)
     ccfg = ctx.cfg(fc)
     snc = fc.param_names()[0]
-    loops = [lp for lp in for_loops(fc) if isinstance(lp.iter, ast.Name) and lp.iter.id == snc and isinstance(lp.target, ast.Name)]
-    lp = one(loops, f"'for chart in self' loop in {CHARTS_SERIALIZE}")
+    cand = [lp for lp in for_loops(fc) if any(isinstance(n, ast.Name) and n.id == snc for n in ast.walk(lp.iter)) and isinstance(lp.target, ast.Name)]
+    lp = one(cand, f"loop over the charts in {CHARTS_SERIALIZE}")
+    ctx.expect("R-ORDER", fc, "the charts are walked in list order", isinstance(lp.iter, ast.Name), src(lp.iter), f"the loop iterates {src(lp.iter)}, not the list itself: chart order would change", node=lp)
     sc = [c for c in method_calls(fc, "serialize") if isinstance(c.func.value, ast.Name) and c.func.value.id == lp.target.id and in_body(lp, c)]
     bad = loop_must_pass(ccfg, lp, [cfg_node_of(ccfg, fc, c) for c in sc]) if sc else [0]
     skips = [n for n in walk_body(lp) if isinstance(n, (ast.Continue, ast.Break, ast.Return))]
